@@ -121,6 +121,11 @@ Section SigAlg.
   Definition ag_caller_accepts (r : option (bool * bool)) : bool :=
     match r with Some (_, false) => true | _ => false end.
 
+  (* a node performs many verifications one after another, with the same signature-scheme objects;
+     in the model a verification has no state: each call is judged on its own inputs only *)
+  Definition ag_history (n : nat) (calls : list (nat * list ag_item)) : list ag_verdict :=
+    map (fun c => ag_run n (fst c) (snd c)) calls.
+
   Definition ag_item_valid (n : nat) (it : ag_item) : bool :=
     bls_verify n (ai_key it) (ai_msg it) (ai_sig it).
 
